@@ -1,5 +1,10 @@
 import BS.Properties.C02
+import BS.Properties.C02r
 #print axioms BS.Loss.refVals_at
 #print axioms BS.Loss.step_inv
 #print axioms BS.Loss.loss_safe
 #print axioms BS.Loss.inv_init
+#print axioms BS.Loss.never_stuck
+#print axioms BS.Loss.run_decreases
+#print axioms BS.Loss.recovery_completes
+#print axioms BS.Loss.recovery_correct
